@@ -77,7 +77,8 @@ def isSpace (c : UInt8) : Bool := c = 32 || c = 10 || c = 13 || c = 9
 /-- `myisalnum` (`char` is signed: bytes ≥ 0x80 are negative and fail every range test) -/
 def isAlnum (c : UInt8) : Bool := (65 ≤ c && c ≤ 90) || (97 ≤ c && c ≤ 122) || (48 ≤ c && c ≤ 57)
 
-/-! ## `Var` object assignment `top[key] = x` -/
+/-! ## `Var` object assignment `top[key] = x`
+(a finite map; the position an entry takes in the association list is not observable) -/
 
 def objSet : List (Bytes × JV) → Bytes → JV → List (Bytes × JV)
   | [], k, x => [(k, x)]
